@@ -217,9 +217,9 @@ struct RegpHarness : Harness {
     std::vector<std::string> props() const override { return {"C06", "C07", "C08", "C09"}; }
     std::string level(const std::string &p) const override { return p == "C07" ? "fault_enumeration" : "exploration"; }
     uint64_t runs(const std::string &p, const Tier &t) const override {
-        if (p == "C07") return t.thorough() ? 480000 : 24000;
-        if (p == "C08") return t.thorough() ? 20000000 : 1000000;
-        return t.thorough() ? 30000000 : 1500000;
+        if (p == "C07") return t.thorough() ? 300000 : 24000;
+        if (p == "C08") return t.thorough() ? 6000000 : 1000000;
+        return t.thorough() ? 8000000 : 1500000;
     }
     bool nontrivial(const Ctx &c) const override { return c.ops_done > 0 && (c.prop != "C07" || c.faults_fired > 0); }
     std::vector<std::string> probes(const std::string &p) const override {
